@@ -10,6 +10,12 @@ Three exhaustive sub-explorations (field 'sub' of a case):
         is strictly feasible is a violation too; all-integer specs are compared with the brute-force optimum.
         The C06 re-solve histories (solve -> st(redundant) -> solve ...; quick: the 3-compile history) get the same
         lattice reference after EVERY solve.
+ spell: every atom that exists as a method of lp.Vars / VarSub / Affine / DecVar / DecVarSub / DecAffine is called in
+        both spellings rso.f(arg, ..) and arg.f(..) (plus .norm(p, method) / rso.norm for p-norms, fnorm, power(p) with
+        the default denominator) on a raw variable, a slice / entry of a larger variable and an affine expression, ro
+        and dro, at a pinned argument; closed-form oracle as in pin.  An inventory case (inspect) reports public
+        methods of those classes that the table does not know.
+ bnd  : the C06 family of several Bounds on overlapping entries: reported optimum = closed form over the intersection.
  milp : linear models with B/I/C variables (mixed vtype strings, several variables, user bounds on integers and
         binaries as Bounds): brute force over all integer points (continuous part by scipy linprog).
 """
@@ -210,6 +216,60 @@ def gen_pin(tier, seed):
                         yield it
 
 
+def gen_spell(tier, seed):
+    """Call spelling x receiver class: every atom that exists as a METHOD of the variable / expression classes is
+    called as rso.f(arg, ..) and as arg.f(..) on a raw variable (Vars / DecVar), a subscripted variable
+    (VarSub / DecVarSub: slice of a larger variable, single entry for scalar arguments) and an affine expression
+    (Affine / DecAffine), in ro and dro, at a pinned argument.  One inventory case compares the list of atoms here
+    with the public methods the classes actually define (inspect), so that a new method is not silently left out."""
+    th = tier == 'thorough'
+    yield {'sub': 'inventory'}
+    ks = [1.0, 2.5]
+    Qp = [[2.0, 0.5], [0.5, 1.0]]
+    Qn = [[-2.0, -0.5], [-0.5, -1.0]]
+    # (atom, par, x0 list, arity, curvature, cone, extra)
+    table = [
+        ('abs', None, [[-1.5], [0.5, -2.0]], 'elem', 1, 'LP', {}),
+        ('norm1', None, [X2[1]], 'vec', 1, 'LP', {}), ('norminf', None, [X2[1]], 'vec', 1, 'LP', {}),
+        ('norm2', None, [X2[1], X3[0]], 'vec', 1, 'SOC', {}), ('norm2', None, [X2[2]], 'vec', 1, 'SOC', {'via_norm': 1}),
+        ('pnorm_soc', 3, [X2[1]], 'vec', 1, 'SOC', {}), ('pnorm_soc', [5, 2], [X2[1], X3[0]], 'vec', 1, 'SOC', {}),
+        ('pnorm_soc', 3, [X2[2]], 'vec', 1, 'SOC', {'via_norm': 1}),
+        ('pnorm_exc', 2.5, [X2[1]], 'vec', 1, 'EXP', {}), ('pnorm_exc', [3, 2], [X2[1]], 'vec', 1, 'EXP', {}),
+        ('pnorm_exc', 2.5, [X2[2]], 'vec', 1, 'EXP', {'via_norm': 1}),
+        ('square', None, [[-1.5], [0.5, -2.0]], 'elem', 1, 'SOC', {}), ('sumsqr', None, [X2[1], X3[0]], 'vec', 1, 'SOC', {}),
+        ('quad_psd', Qp, [X2[1]], 'vec', 1, 'SOC', {}), ('quad_nsd', Qn, [X2[1]], 'vec', -1, 'SOC', {}),
+        ('power', [3, 2], [[-1.5], [0.5, -2.0]], 'elem', 1, 'SOC', {}), ('power', [5, 3], [[0.5], [2.0]], 'elem', 1, 'SOC', {}),
+        ('power', [3, 1], [[-1.5]], 'elem', 1, 'SOC', {'default_q': 1}), ('power', [3, 1], [[0.5, -2.0]], 'elem', 1, 'SOC', {}),
+        ('power', [[2, 3], [1, 2]], [[0.5, -1.5]], 'elem', 1, 'SOC', {}), ('power', [7, 4], [[-1.5]], 'elem', 1, 'SOC', {}),
+        ('gmean', None, [XPOS2[1]], 'vec', -1, 'SOC', {}), ('gmean', [1, 2], [XPOS2[1]], 'vec', -1, 'SOC', {}),
+        ('gmean', [2, 1, 3], [XPOS3[0]], 'vec', -1, 'SOC', {}),
+        ('exp', None, [[-0.5], [1.0, -2.0]], 'elem', 1, 'EXP', {}), ('log', None, [[2.5], [0.25, 1.0]], 'elem', -1, 'EXP', {}),
+        ('softplus', None, [[-0.5], [1.0, -2.0]], 'elem', 1, 'EXP', {}),
+        ('pexp', None, [[-0.5], [1.0]], 'elem', 1, 'EXP', {'s': 2.0, 'smode': 'const'}),
+        ('pexp', None, [[1.0]], 'elem', 1, 'EXP', {'s': 0.5, 'smode': 'var'}),
+        ('plog', None, [[2.5], [0.25]], 'elem', -1, 'EXP', {'s': 2.0, 'smode': 'const'}),
+        ('plog', None, [[1.0]], 'elem', -1, 'EXP', {'s': 0.5, 'smode': 'var'}),
+        ('entropy', None, [XPOS2[1], [0.2, 0.3, 0.5]], 'vec', -1, 'EXP', {}),
+        ('rsocone', None, [X2[1], [1.5]], 'cons', 0, 'SOC', {'y': 2.0}),
+        ('expcone', None, [[-0.5], [1.0]], 'cons', 0, 'EXP', {'z': 2.0}),
+        ('kldiv', None, [[0.2, 0.3, 0.5]], 'cons', 0, 'EXP', {'q': [0.5, 0.25, 0.25]}),
+    ]
+    for atom, par, xs, ar, curv, cone, extra in table:
+        for x0 in xs:
+            for recv in ('vars', 'varsub', 'affine'):
+                for spell in ('fn', 'meth'):
+                    if atom == 'norm2' and extra.get('via_norm') and spell == 'meth':
+                        continue            # fnorm exists as a function only
+                    for k in (ks if ar != 'cons' else [1.0]):
+                        for pos in (('cons', 'obj') if (ar == 'vec' or (ar == 'elem' and len(x0) == 1)) and (th or k == 1.0)
+                                    else ('cons',)):
+                            ex = dict(extra)
+                            ex.update(recv=recv, spell=spell)
+                            for it in _pin(atom, par, x0, k, cone, ar, curv, tier, pos, extra=ex, fes=('ro', 'dro'),
+                                           solvers=_solvers(cone, th)[:1] if not th else None):
+                                yield it
+
+
 # ---- MILP grammar --------------------------------------------------------------------------------
 def _nominal_box(vts, ib, cb):
     return [(ib if ch == 'I' else (cb if ch == 'C' else [0.0, 1.0])) for ch in vts]
@@ -264,6 +324,26 @@ def gen_milp(tier, seed):
                                 yield {'sub': 'milp', 'fe': fe, 'solver': solver, 'spec': spec}
 
 
+def gen_bnd(tier, seed):
+    """The C06 family "several Bounds on overlapping entries" (ro; quick: objectives that push against the bounds):
+    the reported optimum must equal the closed form with the INTERSECTION of all bounds."""
+    from . import c06 as _c06
+    th = tier == 'thorough'
+    for c in _c06.gen_bounds(tier, seed):
+        if not th and (c['fe'] != 'ro' or c['obj'] == 'lin-away'):
+            continue
+        c = dict(c)
+        c['sub'] = 'bnd'
+        yield c
+
+
+def run_bnd(case):
+    from . import c06 as _c06
+    if not _c06._R:
+        _c06._R.update(_R)
+    return _c06.run_bounds(case, optimum_only=True)
+
+
 def gen_lat_hist(tier, seed):
     """Re-solve histories of the C06 history family (quick: the 3-compile history only)."""
     th = tier == 'thorough'
@@ -288,7 +368,8 @@ def gen_lat(tier, seed):
 def gen_cases(tier, seed):
     import os
     only = os.environ.get('RSMC_C07_SUB')          # development aid: run one sub-exploration only
-    for name, g in (('pin', gen_pin), ('milp', gen_milp), ('lat', gen_lat), ('lathist', gen_lat_hist)):
+    for name, g in (('pin', gen_pin), ('spell', gen_spell), ('milp', gen_milp), ('bnd', gen_bnd), ('lat', gen_lat),
+                    ('lathist', gen_lat_hist)):
         if only and only != name:
             continue
         for c in g(tier, seed):
@@ -308,6 +389,9 @@ def bounds(tier):
                     'multipliers': [1, 2.5, 0.5] if th else [1, 2.5], 'front_ends': ['ro', 'dro(subset)']},
             'lat': {'n': [2, 3] if th else [2], 'step': 0.25, 'fine_step': 1 / 64, 'fine_radius': 0.125,
                     'specs': 'the C06 grammar' + ('' if th else ' (dro front end: multipliers +-1 only)')},
+            'spell': {'receivers': ['Vars/DecVar', 'VarSub/DecVarSub (slice, entry)', 'Affine/DecAffine'],
+                      'spellings': ['rso.f(arg,..)', 'arg.f(..)', 'norm(p,method) / fnorm / power(p) default q'],
+                      'atoms': sorted(set(A.ATOM_METHODS)), 'not_covered': sorted(A.SDP_METHODS)},
             'lat_histories': {'sequences': S.HISTORIES if th else S.HISTORIES[-1:], 'specs': 'the C06 history family'},
             'milp': {'int_box': '4 values per integer variable, <= 3 integers (thorough: 3 integers x 2 binaries)',
                      'binary_bounds': ['none', '[0,1]', 'ub=0', 'lb=1', '[-1,3]'], 'layouts': 14 if th else 10,
@@ -325,7 +409,32 @@ def worker_init():
 
 
 def run_case(case):
-    return {'pin': run_pin, 'lat': run_lat, 'milp': run_milp}[case['sub']](case)
+    return {'pin': run_pin, 'lat': run_lat, 'milp': run_milp, 'inventory': run_inventory, 'bnd': run_bnd}[case['sub']](case)
+
+
+def run_inventory(case):
+    """Every public method of the variable / expression classes is either an atom of the spelling table, a known
+    array-algebra / bookkeeping method, or an SDP atom (no solver).  An unknown one is reported (inconclusive, not
+    a violation of the property): the spelling table has to be extended."""
+    import inspect
+    lp = _R['rso'].lp
+    known = set(A.ATOM_METHODS.values()) | A.NON_ATOM_METHODS | A.SDP_METHODS
+    unknown = {}
+    nm = 0
+    for cls in (lp.Vars, lp.VarSub, lp.Affine, lp.DecVar, lp.DecVarSub, lp.DecAffine):
+        for name, f in inspect.getmembers(cls, predicate=inspect.isfunction):
+            if name.startswith('_'):
+                continue
+            nm += 1
+            if name not in known:
+                unknown.setdefault(name, []).append(cls.__name__)
+        for meth in set(A.ATOM_METHODS.values()):
+            if not callable(getattr(cls, meth, None)):
+                unknown.setdefault(meth + '(missing)', []).append(cls.__name__)
+    if unknown:
+        return {'status': 'harness_error', 'outcome': 'inventory:uncovered-methods', 'ops': nm,
+                'detail': 'methods not in the call-spelling table of C07: %s' % unknown}
+    return {'status': 'pass', 'ops': nm, 'nontrivial': True, 'outcome': 'inventory:ok'}
 
 
 # ---- pin ---------------------------------------------------------------------------------------------
@@ -362,24 +471,44 @@ def run_pin(case):
     try:
         m = _R['ro'].Model() if fe == 'ro' else _R['dro'].Model()
         # all variables are declared before any expression is formed (dro expressions are sized at creation)
-        x = m.dvar(len(x0))
-        nout = len(x0) if (case['ar'] == 'elem' and len(x0) > 1) else 1
-        t = m.dvar(nout) if nout > 1 else m.dvar()
+        recv, spell = case.get('recv'), case.get('spell', 'fn')
+        n0 = len(x0)
+        nout = n0 if (case['ar'] == 'elem' and n0 > 1) else 1
+        if recv == 'varsub':
+            X = m.dvar(n0 + 2)                 # the argument is a slice / entry of a larger variable
+            T = m.dvar(nout + 1)
+            t = T[1:] if nout > 1 else T[1]
+        else:
+            X = m.dvar(n0)
+            t = m.dvar(nout) if nout > 1 else m.dvar()
         w = m.dvar() if (atom in ('rsocone', 'expcone') or case.get('smode') == 'var') else None
-        m.st(x == x0)
+        if recv == 'varsub':
+            m.st(X == np.concatenate([[0.75], x0, [-0.5]]))
+            x = X[1:n0 + 1]
+        elif recv == 'affine':
+            m.st(X == 2.0 * x0 - 0.5)
+            x = 0.5 * X + 0.25                  # a genuine Affine / DecAffine with value x0
+        else:
+            m.st(X == x0)
+            x = X
+        if recv is not None:
+            sig = 'pin|%s|%s%s|%s|%s|recv=%s|spell=%s' % (fe, atom, _parclass(case), pos, solver, recv, spell)
         nops = 5
         curv = case['curv']
         if atom in ('rsocone', 'expcone', 'kldiv'):
+            tt = (1.0 * t + 0.0) if recv == 'affine' else t
             if atom == 'rsocone':
                 y = w
                 m.st(y == case['y'])
-                m.st(rso.rsocone(x, y, t))
+                m.st(x.rsocone(y, tt) if spell == 'meth' else rso.rsocone(x, y, tt))
             elif atom == 'expcone':
                 z = w
                 m.st(z == case['z'])
-                m.st(rso.expcone(t, x[0], z))
+                x1 = X[1] if recv == 'varsub' else x[0]
+                m.st(tt.expcone(x1, z) if spell == 'meth' else rso.expcone(tt, x1, z))
             else:
-                m.st(rso.kldiv(x, np.asarray(case['q'], dtype=float), t))
+                q = np.asarray(case['q'], dtype=float)
+                m.st(x.kldiv(q, tt) if spell == 'meth' else rso.kldiv(x, q, tt))
             m.min(t * 1.0)
             nops += 4
         else:
@@ -394,8 +523,17 @@ def run_pin(case):
                     else:
                         scale = w
                         m.st(scale == case['s'])
-                arg = x if case['ar'] != 'elem' or len(x0) > 1 else x[0]
-                F = A.build_atom(rso, atom, par, arg, scale)
+                if case['ar'] != 'elem' or n0 > 1 or recv == 'vars':
+                    arg = x                     # recv 'vars': the raw variable itself, also for one entry
+                else:
+                    arg = X[1] if recv == 'varsub' else x[0]
+                opts = dict(via_norm=bool(case.get('via_norm')), default_q=bool(case.get('default_q')))
+                if spell == 'meth':
+                    F = A.build_atom_method(atom, par, arg, scale, **opts)
+                elif recv is not None:
+                    F = A.build_atom_fn(rso, atom, par, arg, scale, **opts)
+                else:
+                    F = A.build_atom(rso, atom, par, arg, scale)
             e = F if k == 1 else k * F
             if pos == 'obj':
                 (m.min if curv > 0 else m.max)(e)
